@@ -3,7 +3,7 @@
    Partial by construction: that CPython reads the artefact as py_signature_of / class_attrs_of /
    argparse_table_of say, that the text survives unparse / re-parse and emit.file with or without black,
    is CPython / black behaviour: executed on every generated case by harness/prop_C06.py. *)
-From Coq Require Import List.
+From Coq Require Import List Bool.
 From Coq Require String.
 Import String.StringSyntax.
 From DT Require Import PyStr PyVal PyAst IR EmitAst C06Spec C06Facts.
@@ -44,6 +44,22 @@ Theorem C06_function_names : forall pt i fn ft it kw tds n a body d r i2,
       /\ ar_vararg a = None /\ ar_kwarg a = fn_kwarg i.
 Proof. exact emit_function_names. Qed.
 Print Assumptions C06_function_names.
+
+(* well-formedness of the emitted argument list reduces to the IR's names being distinct identifiers and no
+   Name(None) annotation (typ present-but-None with inline types): the length conditions always hold *)
+Theorem C06_function_wf : forall pt i fn ft it kw tds n a body d r i2,
+    emit_function pt i fn ft it kw tds = Ok (SFunc n a body d r, i2) ->
+    forallb (fun x => is_identifier (a_name x) && ann_ok (a_ann x)) (all_args a) = true ->
+    nodupb (map a_name (all_args a)) = true ->
+    wf_arguments a = true.
+Proof. exact emit_function_wf. Qed.
+Print Assumptions C06_function_wf.
+
+Theorem C06_function_no_annotations : forall pt i fn ft kw tds n a body d r i2,
+    emit_function pt i fn ft false kw tds = Ok (SFunc n a body d r, i2) ->
+    forallb (fun x => ann_ok (a_ann x)) (all_args a) = true /\ r = None.
+Proof. exact emit_function_no_annotations. Qed.
+Print Assumptions C06_function_no_annotations.
 
 (* inside the guard (every non-kwargs parameter has a scalar, non-code default that set_value writes as it
    is) the emitted function has the signature the IR describes *)
